@@ -2,6 +2,8 @@
 
 package sim
 
+import "time"
+
 // HaveInstr is false when the worker is built directly against /repo: no
 // yield points, no control over map iteration order.
 const HaveInstr = false
@@ -11,6 +13,8 @@ func NumSites() int                   { return 0 }
 func LibSteps() uint64                { return 0 }
 func SitesHit() []int                 { return nil }
 func SetPermHook(f func(n int) []int) {}
+func SetNowHook(f func() time.Time)   {}
+func ClockReads() uint64              { return 0 }
 
 type SchedConfig struct {
 	Mode       int
